@@ -45,6 +45,29 @@ simple_trait!(IoRead, io_read, io_read_mut, 0x2000_0000_0000);
 cglue_trait_group!(CaseGrp, { Zb, Abase, Mb, Kb }, { IoRead, IOWrite });
 cglue_impl_group!(Sx, CaseGrp, { IOWrite, IoRead });
 
+// a list that MIXES a built-in external trait with a local one (`Clone` < `Kb`, `Debug` < `IoRead`)
+#[derive(Clone, Debug)]
+pub struct SyD(pub u64);
+#[derive(Clone, Debug)]
+pub struct SyR(pub u64);
+macro_rules! impl_ext_members {
+    ($t:ident) => {
+        impl Kb for $t {
+            fn kb(&self) -> u64 { self.0 ^ 0x4B }
+            fn kb_mut(&mut self, v: u64) -> u64 { self.0 ^= v; self.0 }
+        }
+        impl IoRead for $t {
+            fn io_read(&self) -> u64 { self.0 ^ 0x2000 }
+            fn io_read_mut(&mut self, v: u64) -> u64 { self.0 = self.0.rotate_left(1) ^ v; self.0 }
+        }
+    };
+}
+impl_ext_members!(SyD);
+impl_ext_members!(SyR);
+cglue_trait_group!(ExtGrp, { Kb, Clone }, { IoRead, Debug });
+cglue_impl_group!(SyD, ExtGrp, { Debug });
+cglue_impl_group!(SyR, ExtGrp, { IoRead });
+
 const W: usize = core::mem::size_of::<usize>();
 
 nd::harnesses! {
@@ -65,6 +88,28 @@ nd::harnesses! {
         let vw: &IOWriteVtbl<_> = c.get_vtbl_base();
         let vr: &IoReadVtbl<_> = c.get_vtbl_base();
         assert!(w[4] == vw as *const _ as usize && w[5] == vr as *const _ as usize, "optional vtables in name order");
+    }
+
+    /// Built-in external traits sort among the local ones by name: mandatory `Clone`, `Kb`; optional `Debug`, `IoRead`
+    /// (null when absent).
+    #[kani::unwind(10)]
+    fn c08x_external_and_local_traits_in_one_list() {
+        let v: u64 = nd::any();
+        let only_debug: bool = nd::any();
+        let grp: ExtGrpBox = if only_debug { group_obj!(SyD(v) as ExtGrp) } else { group_obj!(SyR(v) as ExtGrp) };
+        assert!(size_of_val(&grp) == 6 * W, "4 vtable pointers, instance, release function");
+        let w: [usize; 6] = unsafe { transmute_copy(&grp) };
+        let vk: &KbVtbl<_> = grp.get_vtbl_base();
+        let vc: &cglue::ext::core::clone::CloneVtbl<_> = grp.get_vtbl_base();
+        assert!(w[0] == vc as *const _ as usize && w[1] == vk as *const _ as usize, "mandatory: Clone, then Kb");
+        assert!((w[2] != 0) == only_debug, "word 2 is the optional Debug vtable (null when absent)");
+        assert!((w[3] != 0) == !only_debug, "word 3 is the optional IoRead vtable (null when absent)");
+        assert!(as_ref!(grp impl Debug).is_some() == only_debug && as_ref!(grp impl IoRead).is_some() == !only_debug);
+        let c = grp.clone();
+        assert!(c.kb() == v ^ 0x4B);
+        if let Some(r) = as_ref!(c impl IoRead) {
+            assert!(r.io_read() == v ^ 0x2000);
+        }
     }
 
     /// Every cast operation, every requested subset: each method reaches its own trait's implementation.
